@@ -528,12 +528,21 @@ func (fx *FnExec) applyContract(fr *frame, st *State, fc *FuncContract, callee *
 	if tt, ok := rt.(*types.Tuple); ok && tt.Len() == 0 {
 		hasRes = false
 	}
+	// fresh(x) in the callee's postconditions: the allocations are made before the result values are
+	// introduced, so that "a value appearing now is no younger than now" stays consistent with them
+	fx.pendingFresh = nil
+	for _, en := range fc.Ensures {
+		for k := countCalls(en.Expr, "fresh"); k > 0; k-- {
+			fx.pendingFresh = append(fx.pendingFresh, fx.newRef("fresh"))
+		}
+	}
 	if hasRes {
 		res = fx.freshVal(rt, "ret."+shortKey(key))
 		fx.markNilable(res)
 		fx.bindResults(fc, sig, res, vars)
 	}
 	post := mkEnv(st, old)
+	post.assumeFresh = true
 	for _, en := range fc.Ensures {
 		if len(logical) > 0 && mentionsIdent(en.Expr, logical) {
 			continue
@@ -679,8 +688,9 @@ func (fx *FnExec) havocLoc(env *CEnv, old, st *State, x *CExpr) []func() {
 		case SliceV:
 			et := under(base.T).(*types.Slice).Elem()
 			if x.Args[1] == nil && x.Args[2] == nil {
-				// s[:] : the elements visible through s (its window of the backing array), nothing outside it
-				return []func(){func() { fx.havocRange(st, et, bv.Ref, bv.Off, bv.Len) }}
+				// s[:] : the elements reachable through s - its window of the backing array up to its
+				// capacity (append-style callees write past len) - and nothing before its offset
+				return []func(){func() { fx.havocRange(st, et, bv.Ref, bv.Off, bv.Cap) }}
 			}
 			sub := env.sliceExpr(x).V.(SliceV)
 			return []func(){func() { fx.havocRange(st, et, sub.Ref, sub.Off, sub.Len) }}
@@ -743,6 +753,7 @@ func (fx *FnExec) havocRange(st *State, et types.Type, ref, off, n *Term) {
 	in := c.BVCmp("bvult", c.BVBin("bvsub", k, off), n)
 	fx.assumeGlobal(c.Forall([]*Term{k}, c.Implies(c.Not(in), c.Eq(c.Select(na, k), c.Select(old, k)))))
 	fx.setElemArray(st, et, ref, na)
+	fx.curPC = st.pc
 	fx.arrayUpdated(old, na, off, n)
 }
 
@@ -990,6 +1001,7 @@ func (eng *Engine) VerifyFunc(fn *ssa.Function, opts ExecOpts) (rep *FuncReport)
 			fx.bindResults(fc, fn.Signature, res, fr.cvars)
 		}
 		env := &CEnv{fx: fx, fr: fr, st: final, old: fr.entry, vars: fr.cvars}
+		coverOf := map[*Term]int{}
 		for k, en := range fc.Ensures {
 			if hasExists(en.Expr) {
 				// existential postcondition: checked at each return site, where the live integer
@@ -1005,7 +1017,15 @@ func (eng *Engine) VerifyFunc(fn *ssa.Function, opts ExecOpts) (rep *FuncReport)
 				ante := env.Bool(en.Expr.Args[0])
 				o := &Obligation{Name: fmt.Sprintf("%s/vacuity/ensures/%d", key, k+1), Kind: "cover", Cover: true, PC: c.And(final.pc, ante), Goal: c.False(),
 					Assume: fx.assumes[:len(fx.assumes):len(fx.assumes)], Desc: "antecedent of postcondition is reachable: " + exprString(en.Expr.Args[0])}
-				fx.obls = append(fx.obls, o)
+				// one cover per distinct antecedent: a later clause with the same antecedent replaces the
+				// earlier cover (its assumption set is a superset, so it is the stronger check)
+				if prev, ok := coverOf[o.PC]; ok {
+					o.Name = fx.obls[prev].Name
+					fx.obls[prev] = o
+				} else {
+					coverOf[o.PC] = len(fx.obls)
+					fx.obls = append(fx.obls, o)
+				}
 			}
 		}
 	}
@@ -1269,4 +1289,18 @@ func mentionsIdent(x *CExpr, names map[string]bool) bool {
 		}
 	}
 	return false
+}
+
+func countCalls(x *CExpr, name string) int {
+	if x == nil {
+		return 0
+	}
+	n := 0
+	if x.Op == "call" && x.Name == name {
+		n++
+	}
+	for _, a := range x.Args {
+		n += countCalls(a, name)
+	}
+	return n
 }
